@@ -349,6 +349,9 @@ func StructTypeField(tpe ast.BaseTerm, field ast.Constant) (ast.BaseTerm, error)
 			i++
 			return elems[i], nil
 		}
+		if !IsOptional(arg) {
+			i++ // A required field takes two slots: skip its type.
+		}
 	}
 	return nil, fmt.Errorf("no field %v in %v", field, tpe)
 }
